@@ -1,6 +1,7 @@
 package c09
 
 import (
+	"context"
 	"encoding/json"
 	"fmt"
 	"runtime"
@@ -8,6 +9,7 @@ import (
 	"testing"
 	"time"
 
+	"connectrpc.com/connect"
 	"pgregory.net/rapid"
 	"reduction.dev/reduction/batching"
 	"reduction.dev/reduction/config"
@@ -28,7 +30,7 @@ type nbProg struct {
 	N       int   // operator count after the rescale (2..3)
 	Keys    []int // subject keys written before the rescale
 	After   []int // subject keys rewritten after the rescale (drives compaction away from shared tables)
-	Plan    []int // per NeedsTable call: 0 truthful, 1 error, 2 unreachable
+	Plan    []int // per NeedsTable call: 0 truthful, 1 error, 2 unreachable, 3 the call's context was cancelled, 4 the neighbour answers with a Canceled status (it is shutting down), 5 deadline exceeded, 6 Unavailable status
 	MemTab  int
 	Retains int // how many extra checkpoint+retention rounds after the rescale
 }
@@ -39,7 +41,7 @@ func genNB(rt *rapid.T) nbProg {
 		N:       rapid.IntRange(2, 3).Draw(rt, "n"),
 		Keys:    rapid.SliceOfN(rapid.IntRange(0, 15), 6, 30).Draw(rt, "keys"),
 		After:   rapid.SliceOfN(rapid.IntRange(0, 15), 4, 40).Draw(rt, "after"),
-		Plan:    rapid.SliceOfN(rapid.SampledFrom([]int{0, 0, 1, 1, 2}), 1, 12).Draw(rt, "plan"),
+		Plan:    rapid.SliceOfN(rapid.SampledFrom([]int{0, 0, 1, 1, 2, 3, 4, 5, 6}), 1, 12).Draw(rt, "plan"),
 		MemTab:  rapid.SampledFrom([]int{96, 160, 256}).Draw(rt, "memtable"),
 		Retains: rapid.IntRange(1, 3).Draw(rt, "retains"),
 	}
@@ -101,6 +103,18 @@ func execNB(p nbProg, c *hx.Case) error {
 		case 2:
 			faulty++
 			return false, fmt.Errorf("operator %s unreachable", to), true
+		case 3:
+			faulty++
+			return false, fmt.Errorf("asking %s: %w", to, context.Canceled), true
+		case 4:
+			faulty++
+			return false, connect.NewError(connect.CodeCanceled, fmt.Errorf("operator %s is shutting down", to)), true
+		case 5:
+			faulty++
+			return false, fmt.Errorf("asking %s: %w", to, context.DeadlineExceeded), true
+		case 6:
+			faulty++
+			return false, connect.NewError(connect.CodeUnavailable, fmt.Errorf("operator %s is not ready", to)), true
 		}
 		return false, nil, false
 	}
@@ -215,5 +229,5 @@ func execNB(p nbProg, c *hx.Case) error {
 }
 
 func TestPropNeighbours(t *testing.T) {
-	hx.Run(t, hx.Spec{Prop: "C09", Persist: true, Rule: "one real operator writes state over 2..16 key groups with a 96..256 B memtable (tables flushed and compacted), checkpoints, and is rescaled through the real Assembly.Deploy into 2..3 operators that share its tables; they rewrite keys (their compactions drop the shared tables from their own level lists), checkpoint 1..3 more times, are told to retain only the newest checkpoint, and garbage collection is forced; neighbours answer NeedsTable per a drawn plan (truthful / error / unreachable); after every round every table referenced by a checkpoint that some operator retains must exist, and finally every key must be readable at its owner with the right state; non-trivial = >=1 NeedsTable call and >=1 faulty answer"}, genNB, execNB)
+	hx.Run(t, hx.Spec{Prop: "C09", Persist: true, Rule: "one real operator writes state over 2..16 key groups with a 96..256 B memtable (tables flushed and compacted), checkpoints, and is rescaled through the real Assembly.Deploy into 2..3 operators that share its tables; they rewrite keys (their compactions drop the shared tables from their own level lists), checkpoint 1..3 more times, are told to retain only the newest checkpoint, and garbage collection is forced; neighbours answer NeedsTable per a drawn plan (truthful / plain error / unreachable / cancelled context / Canceled status / deadline exceeded / Unavailable status); after every round every table referenced by a checkpoint that some operator retains must exist, and finally every key must be readable at its owner with the right state; non-trivial = >=1 NeedsTable call and >=1 faulty answer"}, genNB, execNB)
 }
